@@ -7,9 +7,10 @@ from . import common
 from . import stft_common as sc
 
 PROP = "C01"
-MODULES = ["PdsVerif.Props.C01"]
-MODEL_MODULES = ["PdsVerif.Model.StftDrv"]
-REQUIRED = ["PdsVerif.C01." + n for n in ["stft_stream_eq_full", "stft_fbf_eq_full", "stft_features_stream_eq_full", "stft_full_frames_length", "stft_full_count", "stft_state_canonical"]]
+MODULES = ["PdsVerif.Props.C01", "PdsVerif.Props.C03"]  # C03 holds the short-integration streaming theorems si_stream_*
+MODEL_MODULES = ["PdsVerif.Model.StftDrv", "PdsVerif.Model.Si"]
+REQUIRED = ["PdsVerif.C01." + n for n in ["stft_stream_eq_full", "stft_fbf_eq_full", "stft_features_stream_eq_full", "stft_full_frames_length", "stft_full_count", "stft_state_canonical", "stft_raw_stream_eq_full"]] + [
+    "PdsVerif.C03." + n for n in ["si_stream_eq_full", "si_stream_eq_spec", "si_stream_chunk", "overlap_save_valid", "accumulate_spec"]]
 RULE = (
     "STFT: (frame_length L, frame_shift S<=L, style, kaldi_shift, integer window) x signal length N (0, 1, S//2, L//2, "
     "L//2+1, L, multiples of S, up to 3L+2) x chunking (random compositions with empty and single-sample chunks; all "
@@ -21,7 +22,7 @@ TRUSTED = [
     "semantics of np.pad(...,'symmetric'), slicing, np.concatenate as modelled in Model/Stft.lean (symPad, drop/take, ++)",
     "`_compute_frame` is a pure function of the frame it is given (read off the source; exercised by the runs)",
     "tracer components harness/tracers.py (DCBank, IntWindow) make the frame contents observable as integers",
-    "the short-integration (overlap-save) clause is decided by the Model/Si.lean theorems where present and otherwise only by the oracle runs (see ASSUMPTIONS)",
+    "short-integration computer: circConv stands for rfft*multiply*irfft (convolution theorem trusted); see C03",
 ]
 ASSUMPTIONS = [
     "theorem scope: 1 <= frame_shift <= frame_length (the property's STFT precondition)",
@@ -33,12 +34,14 @@ LEVEL_TEXT = (
     "(refinement to a canonical state that is a function of the samples seen so far), hence equal features for any "
     "per-frame function; frame_by_frame_calculation as a corollary for every chunk_size. The model mirrors the "
     "buffer/first-frame/finalize code and is tied to it by exact-integer correspondence through the public API. "
-    "Short-integration computers: see level_note."
+    "Short-integration computers: si_stream_eq_full (Props/C03.lean) proves the same for every WF configuration - which "
+    "contains the property's precondition - over any commutative ring, for every chunking; tied by IntFIR exact-integer "
+    "correspondence."
 )
 LEVEL_NOTE = (
     "Trusted: np.pad symmetric / slicing semantics as modelled; tracer bank+window; Lean kernel + std axioms. "
-    "Short-integration streaming is covered by the SI model/theorems of C03 where proved and otherwise by differential "
-    "runs only (partial). Float round-off is outside every theorem."
+    "Short-integration: FFT convolution theorem trusted (model uses direct circular convolution). Float round-off is "
+    "outside every theorem."
 )
 TECHNIQUE = "Lean 4 refinement proof (stream = full for all chunkings) + exact-integer correspondence via tracer bank"
 
@@ -185,6 +188,9 @@ def run(ctx, driver):
         exp = sc.expected_from_model(mout, ops, taps, same_signal=True)
         if exp != rows:
             ctx.mismatch(case, exp, rows, "frames (as integer tracer sums) per op: model vs implementation")
+    # short-integration computers: exact-integer streaming correspondence (model + harness of C03)
+    from . import c03
+    c03.si_stream_cases(ctx, common.Driver("C03"))
     real_bank_oracle(ctx)
 
 
